@@ -72,6 +72,30 @@ fn hostile_but_encodable_label(rng: &mut Rng) -> String {
     }
 }
 
+/// An earlier search for the same type, replaced by or stopped before the one that is judged.
+pub fn earlier_searches(w: &mut World, h: usize, ty: &str, kind: u64, rng: &mut Rng) {
+    match kind {
+        1 => {
+            w.browse_cache(h, ty);
+        }
+        2 => {
+            w.browse_cache(h, ty);
+            w.run_for(rng.below(1500));
+            w.stop_browse(h, ty);
+        }
+        3 => {
+            w.browse(h, ty);
+            w.run_for(rng.below(1500));
+            w.stop_browse(h, ty);
+        }
+        4 => {
+            w.browse(h, ty);
+        }
+        _ => return,
+    }
+    w.run_for(rng.below(1500));
+}
+
 pub fn scenario(seed: u64, enumerated: Option<(u64, u64)>) -> Made {
     let mut rng = Rng::new(seed);
     let mut w = World::new(seed);
@@ -83,7 +107,11 @@ pub fn scenario(seed: u64, enumerated: Option<(u64, u64)>) -> Made {
     let with_sub = enumerated.is_none() && rng.chance(1, 5);
     // the services have a subtype, but the parent type is what is browsed (their announcements list both PTRs)
     let sub_unbrowsed = !with_sub && (enumerated.is_none() && rng.chance(1, 4) || enumerated.is_some_and(|(a, _)| a % 3 == 1));
-    let browse_chan = w.browse(h, if with_sub { "_sub1._sub._t._udp.local." } else { browser::TY });
+    let browsed = if with_sub { "_sub1._sub._t._udp.local." } else { browser::TY };
+    // what the application did with the type before: nothing, or an earlier (cache-only) browse, stopped or simply replaced
+    let before = if enumerated.is_none() { rng.below(8) } else { enumerated.map_or(0, |(a, _)| if a % 5 == 2 { 1 + a % 4 } else { 0 }) };
+    earlier_searches(&mut w, h, browsed, before, &mut rng);
+    let browse_chan = w.browse(h, browsed);
     let n_svcs = if enumerated.is_some() { 1 } else { 1 + rng.usize(3) };
     let mut svcs = Vec::new();
     let mut follow = Vec::new();
@@ -398,6 +426,8 @@ pub fn second_life_case(seed: u64, l: &mut Local) {
     let sl = c03::slack(stepping);
     let h = w.add_host(scen::single_v4());
     w.set_ip_check_interval(h, 3600);
+    let before = rng.below(8);
+    earlier_searches(&mut w, h, browser::TY, before, &mut rng);
     let Some(chan) = w.browse(h, browser::TY) else { return };
     w.run_for(rng.below(600));
     let mut s = Svc::new(browser::TY, "comeback", "comeback-host.local", [10, 0, 0, 33]);
